@@ -37,6 +37,7 @@ type fakeSession struct {
 	getty.Session // nil: a method the code under test is not expected to call panics (observable)
 	name          string
 	closed        atomic.Bool
+	wire          atomic.Bool // frames take the way of the real writer: encode, (later) hand the SAME slice to the socket, decode there
 	w             *world
 }
 
@@ -54,6 +55,27 @@ func (s *fakeSession) WritePkg(pkg interface{}, _ time.Duration) (int, int, erro
 	if !ok {
 		return 0, 0, fmt.Errorf("fake session: not an RpcMessage: %T", pkg)
 	}
+	if s.wire.Load() {
+		// what getty's session.WritePkg does: writer.Write(pkg) yields the frame, Connection.Send takes
+		// that very slice afterwards (other goroutines encode their frames in between); the
+		// coordinator decodes what the socket took
+		h := &sgetty.RpcPackageHandler{}
+		frame, err := h.Write(s, m)
+		if err != nil {
+			return 0, 0, err
+		}
+		time.Sleep(time.Duration(uint32(m.ID)%5) * 300 * time.Microsecond)
+		onWire := append([]byte(nil), frame...)
+		dec, n, derr := h.Read(s, onWire)
+		dm, isMsg := dec.(message.RpcMessage)
+		if derr != nil || !isMsg || n != len(onWire) {
+			s.w.mu.Lock()
+			s.w.wireErrs = append(s.w.wireErrs, fmt.Sprintf("the frame written for message id %d (%d bytes) does not decode at the coordinator: consumed %d, err %v", m.ID, len(onWire), n, derr))
+			s.w.mu.Unlock()
+			return len(onWire), len(onWire), nil
+		}
+		m = dm
+	}
 	return s.w.onWrite(s, m)
 }
 
@@ -65,6 +87,8 @@ func bodyTag(b interface{}) string {
 		return x.Xid
 	case message.BranchRollbackResponse:
 		return x.Xid
+	case message.RegisterRMRequest:
+		return "regrm"
 	case message.RegisterTMRequest:
 		return "regtm"
 	case message.HeartBeatMessage:
@@ -82,6 +106,7 @@ type world struct {
 	all      []wrec
 	hook     func(wrec)            // conc mode: called (outside the lock) on every successful write
 	early    map[string]func(wrec) // seq mode: reply delivered before WritePkg returns to the caller
+	wireErrs []string              // wire mode: frames the coordinator side could not decode
 }
 
 func newWorld() *world {
@@ -249,6 +274,8 @@ type runner struct {
 	bodyID   map[int64]int32 // reply body tag -> id it was addressed to
 	nextK    int
 	nextBody int64
+	openReqs []interface{} // sent by the real OnOpen on every new session after the RegisterTM (RegisterRM re-announcements)
+	rmIDs    []int32       // ids of the RegisterRM requests written so far and not yet answered
 	handler  interface {
 		OnMessage(getty.Session, interface{})
 		OnOpen(getty.Session) error
@@ -276,7 +303,17 @@ func newRunner(mode string, c0, h0 uint32) *runner {
 	r.cs = &c14case{Mode: mode, C0: c0, H0: h0}
 	sgetty.VerifClearPending()
 	sgetty.VerifSetIDGenerators(c0, h0)
+	sgetty.SetSessionOpenRequests(func() []interface{} { return r.openReqs })
 	return r
+}
+
+// announce: k resources are registered, so every session open re-announces them
+func (r *runner) announce(k int) {
+	r.openReqs = nil
+	for i := 0; i < k; i++ {
+		r.openReqs = append(r.openReqs, message.RegisterRMRequest{ResourceIds: "res-" + strconv.Itoa(i),
+			AbstractIdentifyRequest: message.AbstractIdentifyRequest{Version: "1.5.2", ApplicationId: "verif", TransactionServiceGroup: "g"}})
+	}
 }
 
 func (r *runner) ev(a ...interface{}) { r.cs.Events = append(r.cs.Events, a) }
@@ -309,7 +346,51 @@ func (r *runner) open() *waiterInfo {
 		r.oracle("RegisterTM request of a new session was not written")
 	}
 	r.ev("S", wi.k, false)
+	// the RegisterRM re-announcements: written without callback, nobody waits for their answers
+	rm := r.w.tagChan("regrm")
+	for range r.openReqs {
+		nw := &waiterInfo{k: r.nextK, sync: false, done: true}
+		r.nextK++
+		r.ws[nw.k] = nw
+		pt, stop := patient(5 * time.Second)
+		select {
+		case rec := <-rm:
+			nw.id, nw.hasID = rec.ID, true
+			r.rmIDs = append(r.rmIDs, rec.ID)
+		case <-pt:
+			r.oracle("a RegisterRM re-announcement of a new session was not written")
+		}
+		stop()
+		r.ev("N", nw.k)
+	}
 	return wi
+}
+
+// answerRM: the coordinator answers a RegisterRM re-announcement (under that request's id)
+func (r *runner) answerRM(id int32) {
+	r.nextBody++
+	b := r.nextBody
+	wi := r.byID[id]
+	hit := wi != nil && wi.waiting // only if ids are not unique: a pending caller carries the same id
+	m := message.RpcMessage{ID: id, Type: message.GettyRequestTypeResponse, Codec: 1,
+		Body: message.RegisterRMResponse{AbstractIdentifyResponse: message.AbstractIdentifyResponse{Identified: true, Version: "1.5.2"}}}
+	ret, pan := r.inbound(m, 3*time.Second)
+	r.ev("D", int64(id), b)
+	if pan != "" || !ret {
+		r.oracle("delivery of the answer to a RegisterRM request (id %d): returned=%v panic=%s", id, ret, firstLine(pan))
+	} else {
+		r.ev("R", int64(id))
+	}
+	if hit && wi.sync {
+		pt, stop := patient(3 * time.Second)
+		defer stop()
+		select {
+		case res := <-wi.res:
+			r.oracle("caller %d (request id %d) was handed the answer to ANOTHER request of the client (the RegisterRM re-announcement sent on session open under the same id): %T", wi.k, id, res.v)
+			r.finish(wi, res)
+		case <-pt:
+		}
+	}
 }
 
 func (r *runner) closeSess(silent bool) {
@@ -752,6 +833,7 @@ func seqCase(rng *hutil.Rng, malformed bool) *c14case {
 	t0 := time.Now()
 	c0, h0 := pickStart(rng)
 	r := newRunner("seq", c0, h0)
+	r.announce(rng.Intn(3))
 	reg := r.open()
 	r.obs()
 	if rng.Chance(2, 3) {
@@ -793,8 +875,16 @@ func seqCase(rng *hutil.Rng, malformed bool) *c14case {
 			r.heartbeat(rng.Chance(1, 5))
 		case x < 88:
 			r.pong(anyID())
-		case x < 94:
+		case x < 91:
 			r.junk(rng, anyID())
+		case x < 94:
+			if len(r.rmIDs) > 0 {
+				j := rng.Intn(len(r.rmIDs))
+				r.answerRM(r.rmIDs[j])
+				r.rmIDs = append(r.rmIDs[:j], r.rmIDs[j+1:]...)
+			} else {
+				r.junk(rng, anyID())
+			}
 		default:
 			silent := rng.Chance(1, 2)
 			r.closeSess(silent)
@@ -833,6 +923,18 @@ func seqCase(rng *hutil.Rng, malformed bool) *c14case {
 }
 
 // ---------------------------------------------------------------- all reply orders for n callers in flight
+func permOf(rng *hutil.Rng, n int) []int {
+	p := make([]int, n)
+	for i := range p {
+		p[i] = i
+	}
+	for i := n - 1; i > 0; i-- {
+		j := rng.Intn(i + 1)
+		p[i], p[j] = p[j], p[i]
+	}
+	return p
+}
+
 func permutations(n int) [][]int {
 	if n == 0 {
 		return [][]int{{}}
@@ -1070,6 +1172,57 @@ loop:
 	r.endChecks(true)
 	r.finalOut()
 	r.handler.OnClose(r.sess) // leave no registered session behind for the next history
+	r.cs.Secs = time.Since(t0).Seconds()
+	return r.cs
+}
+
+// ---------------------------------------------------------------- a session opens while resources are registered and requests are pending
+// k resources registered; p sync callers pending; the connection is lost and a new session opens:
+// the real OnOpen re-announces the resources (RegisterRM requests, no callback). The coordinator
+// answers those FIRST, then the pending callers: every caller must still get the answer to its own request.
+func reopenCase(rng *hutil.Rng) *c14case {
+	t0 := time.Now()
+	c0 := startPoints[rng.Intn(len(startPoints))]
+	h0 := c0 + uint32(rng.Intn(4)) - 1 // both generators count from about the same point (both start at 0 in a fresh process)
+	r := newRunner("reopen", c0, h0)
+	r.announce(1 + rng.Intn(3))
+	reg := r.open()
+	r.reply(reg.id)
+	r.obs()
+	var ws []*waiterInfo
+	for i, p := 0, 3+rng.Intn(4); i < p; i++ {
+		ws = append(ws, r.send(true, false))
+	}
+	r.obs()
+	for rng.Chance(1, 2) {
+		r.heartbeat(false)
+	}
+	silent := rng.Chance(1, 2)
+	r.closeSess(silent)
+	if silent {
+		r.handler.OnClose(r.sess)
+	}
+	reg2 := r.open()
+	r.obs()
+	for _, id := range r.rmIDs {
+		r.answerRM(id)
+		r.obs()
+	}
+	r.rmIDs = nil
+	r.reply(reg2.id)
+	for _, j := range permOf(rng, len(ws)) {
+		if ws[j].waiting {
+			r.reply(ws[j].id)
+		}
+		r.obs()
+	}
+	if len(r.cs.Oracle) == 0 {
+		r.endChecks(true)
+		r.fresh()
+		r.endChecks(true)
+	}
+	r.finalOut()
+	r.handler.OnClose(r.sess)
 	r.cs.Secs = time.Since(t0).Seconds()
 	return r.cs
 }
@@ -1484,6 +1637,9 @@ func Run14(args map[string]string) {
 				}
 				cases = append(cases, permCase(rng.Fork(uint64(50000+100*n+pi)), n, order, pi%2 == 1))
 			}
+		}
+		for i := 0; i < hutil.ArgInt(args, "nreopen", 30) && failing() < 3; i++ {
+			cases = append(cases, reopenCase(rng.Fork(uint64(60000+i))))
 		}
 		// callers crossing the int32 boundary of the id space together
 		for i := 0; i < hutil.ArgInt(args, "nbound", 40) && failing() < 3; i++ {
